@@ -273,6 +273,43 @@ def check_overview_narrow(case):
     return None
 
 
+def check_scan_overview(case):
+    """The overview that `scan` prints while / after scanning shows the totals the scan stores in its report - also for
+    code bases of more than a hundred files."""
+    import json as _json
+
+    from vf.harness import cli, tree
+
+    files = {}
+    for i in range(case["nfiles"]):
+        lang, ext = (("Python", "py"), ("JavaScript", "js"), ("C", "c"))[i % 3]
+        ls = [3, 31 + i % 5] if i % 2 else [2, 61 + i % 3, 4]
+        files[f"pkg{i % 7}/m{i:03d}.{ext}"] = tree.flat_file(lang, ls)
+    with tree.temp_tree(files) as root:
+        res = cli.run_scan(root, ".")
+        if res.exc:
+            return (f"scan:{res.exc[0]}", res.exc[1])
+        try:
+            stored = _json.loads((root / ".codelimit_cache" / "codelimit.json").read_text())["codebase"]["totals"]
+        except Exception as e:  # noqa: BLE001
+            return ("scan:no-report", f"{type(e).__name__}: {e}")
+    rows, totals = parse_overview_text(res.out)
+    shown = {name: {c: v[0] for c, v in zip(COLS, cells)} for name, cells in rows}
+    want = {k: {c: v[c] for c in COLS} for k, v in stored.items()}
+    if shown != want:
+        return ("scan-overview-differs-from-report", f"{case['nfiles']} files: overview printed by scan {shown} vs totals stored in the report {want}")
+    if totals is not None:
+        tw = [sum(v[c] for v in want.values()) for c in COLS]
+        if [t[0] for t in totals] != tw:
+            return ("scan-overview-totals-differ-from-report", f"{case['nfiles']} files: totals row {[t[0] for t in totals]} vs stored {tw}")
+    return None
+
+
+def scan_overviews(col):
+    for n in (8, 100, 101, 107, 118, 203):
+        col.eval({"kind": "scan-overview", "nfiles": n}, nontrivial=n > 100, labels=["scan-overview", f"files:{n}"])
+
+
 def _render_via_command(cur, prev):
     """The same overview through report_command: reports written to disk, read back by the command."""
     from codelimit.common.report.ReportWriter import ReportWriter
@@ -415,10 +452,14 @@ def run_case(case):
         return check_overview(case)
     if case["kind"] == "narrow":
         return check_overview_narrow(case)
+    if case["kind"] == "scan-overview":
+        return check_scan_overview(case)
     return check_findings(case)
 
 
 def shrink_candidates(case):
+    if case["kind"] == "scan-overview":
+        return
     if case["kind"] == "narrow":
         for key in ("current", "previous"):
             fs = case[key]
@@ -587,6 +628,7 @@ def plan(tier, seed):
     for i in range(8):
         jobs.append(("gen_overview", {"seed": shard_seed(seed, ID, f"o{i}"), "n": total // 16}))
         jobs.append(("gen_findings", {"seed": shard_seed(seed, ID, f"f{i}"), "n": total // 16}))
+    jobs.append(("scan_overviews", {}))
     for i in range(4):
         jobs.append(("gen_narrow", {"seed": shard_seed(seed, ID, f"n{i}"), "n": 5 if tier == "quick" else 60}))
     return jobs
